@@ -48,6 +48,9 @@ def path_lists(tier):
                     continue
                 for perm in itertools.permutations([p, q, r1, r2]):
                     out.append(list(perm))
+    # the root path is a prefix of every other path
+    for l in (["/", "/a"], ["/a", "/"], ["/", "/a/b", "/b"], ["/b", "/a/b", "/"]):
+        out.append(l)
     seen, res = set(), []
     for l in out:
         if tuple(l) not in seen and len(set(l)) == len(l):
